@@ -189,4 +189,7 @@ REQUIRED_KEYS_SOFT_OK = {
     ("treeinfo.Stage2", "mainimage"), ("treeinfo.Stage2", "instimage"),
     ("treeinfo.Media", "discnum"), ("treeinfo.Media", "totaldiscs"),
     ("treeinfo.Variant", "addons"), ("treeinfo.Variants", "variants"),
+    # C07: "for treeinfo, sections with a documented legacy fallback - the header itself, [tree] - are not 'required'"
+    ("treeinfo.Header", "version"), ("treeinfo.Tree", "build_timestamp"), ("treeinfo.Tree", "arch"),
+    ("treeinfo.Tree", "platforms"),
 }
